@@ -226,6 +226,14 @@ func TrackerProperty(impl TrackerImpl) Property {
 					p2n, n2p := state()
 					outs[i] = showPairs(p2n) + "|" + showPairs(n2p)
 					check()
+					// the package just added (its Path, when the symbol carries one) has a local name now
+					added := pkg
+					if f[1] == "add" && Unhex(f[3]) != "" {
+						added = Unhex(f[3])
+					}
+					if _, tracked := p2n[added]; !tracked && pkg != "" && pkg != local && added != local {
+						fail("added-package-not-tracked", fmt.Sprintf("%s returned, but package %q has no local name and no import line", Readable(l), added))
+					}
 				case "lines":
 					outs[i] = HexList(tr.ImportLines())
 				case "nameof":
